@@ -24,7 +24,9 @@
  *   closing-c / -s    the peer has closed, the subject (c: w.conn, s: w.accepted) has not looked yet
  *   closed-c / -s     ... and the subject has seen xcm_receive() == 0
  *   reset-c / -s      the peer closed with unread data, the subject has seen the error
- *   refused           connection refused, seen by xcm_finish()                (TCP based only)
+ *   (a refused connection is reported inside xcm_connect_a itself in the default environment - the
+ *   connect completes at once - so no socket exists in that state; the failed states are the three
+ *   below and reset-*)
  *   conn-timeout      tcp.connect_timeout expired (virtual clock)             (TCP based only)
  *   dns-timeout       resolver never answered, dns.timeout expired            (TCP based only)
  */
@@ -318,10 +320,16 @@ static inline int as_state_established(struct as_world *w, const struct xcm_attr
         int f1 = xcm_finish(w->conn);
         int e1 = errno;
         int f2 = w->accepted ? xcm_finish(w->accepted) : -1;
+        int e2 = errno;
         if (f1 < 0 && e1 != EAGAIN) {
             errno = e1;
             xcm_attr_map_destroy(m);
             return as_fail(w, "xcm_finish(conn) while establishing");
+        }
+        if (w->accepted && f2 < 0 && e2 != EAGAIN) {
+            errno = e2;
+            xcm_attr_map_destroy(m);
+            return as_fail(w, "xcm_finish(accepted) while establishing");
         }
         ok = w->accepted && f1 == 0 && f2 == 0;
     }
